@@ -123,6 +123,10 @@ pub struct IssueArgs<'a> {
 pub fn new_issuer(key: &str, alg: &str) -> SDJWTIssuer {
     SDJWTIssuer::new(keys::enc(key), Some(alg.to_string()))
 }
+/// `sign_alg = None`: the documented default algorithm (ES256) must be used
+pub fn new_issuer_default_alg(key: &str) -> SDJWTIssuer {
+    SDJWTIssuer::new(keys::enc(key), None)
+}
 pub fn hk_json(hk: Option<&str>) -> String {
     match hk.and_then(keys::jwk) {
         Some(j) => tag(&J::from_value(&serde_json::to_value(&j).unwrap())),
